@@ -53,6 +53,7 @@ static uint64_t ncyc(int costly) { return vrt_thorough ? (costly ? (1u << 22) + 
 #define EVERY(c, n) ((c) == (n) - 1 || near_pow2((c) + 1))
 #define TICK(entry) do { if ((c & 1023) == 0) VRT_OP1(entry, "cycle %ld", (long)c); } while (0)
 
+static void big_trees(void); static void big_heap(void); static void big_hash(void); static void big_map(void); static void big_lists(int dl);
 static int cnt_visit_b(const void *e, cstl_bintree_visit_order_t o, void *p) { (void)e; if (o == CSTL_BINTREE_VISIT_ORDER_MID || o == CSTL_BINTREE_VISIT_ORDER_LEAF) ++*(int *)p; return 0; }
 static void c_trees(void)
 {
@@ -86,6 +87,7 @@ static void c_trees(void)
     }
     VRT_COUNT_N("cycles.trees", n);
     unmk();
+    big_trees();
 }
 static void c_heap(void)
 {
@@ -111,6 +113,7 @@ static void c_heap(void)
     }
     VRT_COUNT_N("cycles.heap", n);
     unmk();
+    big_heap();
 }
 static int cnt_visit(void *e, void *p) { (void)e; ++*(int *)p; return 0; }
 static void c_hash(void)
@@ -144,6 +147,7 @@ static void c_hash(void)
     cstl_hash_clear(&h, NULL);
     VRT_COUNT_N("cycles.hash", n);
     unmk();
+    big_hash();
 }
 static int cmp_int(const void *a, const void *b, void *p) { (void)p; return (*(const int *)a > *(const int *)b) - (*(const int *)a < *(const int *)b); }
 static void c_map(void)
@@ -168,6 +172,7 @@ static void c_map(void)
     cstl_map_clear(&m, NULL, NULL);
     CK(vrt_lib_live() == 0, "map.leak", "blocks left after clear");
     VRT_COUNT_N("cycles.map", n);
+    big_map();
 }
 static void c_vector(void)
 {
@@ -227,6 +232,7 @@ static void c_dlist(void)
     }
     VRT_COUNT_N("cycles.dlist", n);
     unmk();
+    big_lists(1);
 }
 static void c_slist(void)
 {
@@ -246,6 +252,7 @@ static void c_slist(void)
     }
     VRT_COUNT_N("cycles.slist", n);
     unmk();
+    big_lists(0);
 }
 static void c_array(void)
 {
@@ -268,6 +275,128 @@ static void c_array(void)
     cstl_array_reset(&a);
     CK(vrt_lib_live() == 0, "array.leak", "blocks left");
     VRT_COUNT_N("cycles.array", n);
+}
+
+/* ---- big containers cleared in one call (also while the allocator refuses everything) ----
+ * clear of 2^20 + 3 list elements, 300 000 tree / heap elements, 6000 map entries: an implementation that recurses once per
+ * element, or that needs scratch memory proportional to the container, shows only at such sizes. */
+static long big_seen;
+static const struct el *big_lo, *big_hi;
+static void big_cb(void *e, void *p)
+{
+    (void)p;
+    if ((const struct el *)e < big_lo || (const struct el *)e >= big_hi || ((struct el *)e)->pad != 0x51)
+        vrt_fail("cycles.bigclear.callback-for-something-else", "the clear callback received %p, not one of the container's elements, or an element twice", e);
+    ((struct el *)e)->pad = 0x52;
+    big_seen++;
+}
+static struct el *big_mk(long n)
+{
+    struct el *a = vrt_alloc((size_t)n * sizeof(*a));
+    long i;
+    for (i = 0; i < n; i++) { a[i].pad = 0x51; a[i].key = (int)((i * 2654435761u) >> 8); }
+    big_lo = a; big_hi = a + n; big_seen = 0;
+    return a;
+}
+#define BIGCLEAR(fam, n, nomem, stmt) do { VRT_OP2(fam ".clear", "%ld elements, allocator %ld (0 normal, 1 refuses everything)", (long)(n), (long)(nomem)); \
+        if (nomem) { VRT_NOMEM(stmt); } else { stmt; } \
+        CK(big_seen == (long)(n), "bigclear." fam ".count", "clear of %ld elements handed over %ld", (long)(n), big_seen); VRT_COUNT("cycles.bigclear"); } while (0)
+static void big_lists(int dl)
+{
+    const long n = (1L << 20) + 3;
+    int round;
+    for (round = 0; round < 2; round++) {
+        struct el *a = big_mk(n);
+        long i;
+        if (dl) {
+            struct cstl_dlist l;
+            cstl_dlist_init(&l, offsetof(struct el, dn));
+            for (i = 0; i < n; i++) cstl_dlist_push_back(&l, &a[i]);
+            BIGCLEAR("dlist", n, round, cstl_dlist_clear(&l, big_cb));
+            CK(cstl_dlist_size(&l) == 0 && cstl_dlist_front(&l) == NULL, "bigclear.dlist.not-empty", "the list is not empty after clear");
+        } else {
+            struct cstl_slist l;
+            cstl_slist_init(&l, offsetof(struct el, sn));
+            for (i = 0; i < n; i++) cstl_slist_push_back(&l, &a[i]);
+            BIGCLEAR("slist", n, round, cstl_slist_clear(&l, big_cb));
+            CK(cstl_slist_size(&l) == 0 && cstl_slist_front(&l) == NULL, "bigclear.slist.not-empty", "the list is not empty after clear");
+        }
+        vrt_free(a);
+    }
+}
+static void big_trees(void)
+{
+    const long n = 300000;
+    int round;
+    for (round = 0; round < 4; round++) {
+        struct el *a = big_mk(n);
+        long i;
+        if (round & 1) {
+            struct cstl_rbtree t;
+            cstl_rbtree_init(&t, cmp_el, NULL, offsetof(struct el, rn));
+            for (i = 0; i < n; i++) cstl_rbtree_insert(&t, &a[i], NULL);
+            BIGCLEAR("rbtree", n, round >> 1, cstl_rbtree_clear(&t, big_cb, NULL));
+            CK(cstl_rbtree_size(&t) == 0, "bigclear.rbtree.not-empty", "size after clear");
+        } else {
+            struct cstl_bintree t;
+            cstl_bintree_init(&t, cmp_el, NULL, offsetof(struct el, bn));
+            for (i = 0; i < n; i++) cstl_bintree_insert(&t, &a[i], NULL);
+            BIGCLEAR("bintree", n, round >> 1, cstl_bintree_clear(&t, big_cb, NULL));
+            CK(cstl_bintree_size(&t) == 0, "bigclear.bintree.not-empty", "size after clear");
+        }
+        vrt_free(a);
+    }
+}
+static void big_heap(void)
+{
+    const long n = 300000;
+    int round;
+    for (round = 0; round < 2; round++) {
+        struct el *a = big_mk(n);
+        struct cstl_heap h;
+        long i;
+        cstl_heap_init(&h, cmp_el, NULL, offsetof(struct el, hn));
+        for (i = 0; i < n; i++) cstl_heap_push(&h, &a[i]);
+        BIGCLEAR("heap", n, round, cstl_heap_clear(&h, big_cb));
+        CK(cstl_heap_size(&h) == 0 && cstl_heap_get(&h) == NULL, "bigclear.heap.not-empty", "the heap is not empty after clear");
+        vrt_free(a);
+    }
+}
+static long map_seen;
+static void big_map_cb(void *i, void *p) { (void)i; (void)p; map_seen++; }
+static void big_map(void)
+{
+    const long n = 6000;
+    int round;
+    for (round = 0; round < 2; round++) {
+        cstl_map_t m;
+        int *k = vrt_alloc((size_t)n * sizeof(int));
+        long i;
+        cstl_map_init(&m, cmp_int, NULL);
+        for (i = 0; i < n; i++) { k[i] = (int)((i * 7919) % 100003); CK(cstl_map_insert(&m, &k[i], &k[i], NULL) == 0, "bigclear.map.insert", "insert %ld", i); }
+        map_seen = 0; big_seen = 0;
+        VRT_OP2("map.clear", "%ld entries, allocator %ld (0 normal, 1 refuses everything)", n, (long)round);
+        if (round) { VRT_NOMEM(cstl_map_clear(&m, big_map_cb, NULL)); } else cstl_map_clear(&m, big_map_cb, NULL);
+        CK(map_seen == n && cstl_map_size(&m) == 0 && vrt_lib_live() == 0, "bigclear.map.count", "clear of %ld entries: %ld callbacks, %zu library blocks left", n, map_seen, vrt_lib_live());
+        VRT_COUNT("cycles.bigclear");
+        vrt_free(k);
+    }
+}
+static void big_hash(void)
+{
+    const long n = 300000;
+    struct el *a = big_mk(n);
+    struct cstl_hash h;
+    long i;
+    cstl_hash_init(&h, offsetof(struct el, xn));
+    cstl_hash_resize(&h, 1000, NULL);
+    for (i = 0; i < n; i++) cstl_hash_insert(&h, (size_t)a[i].key, &a[i]);
+    cstl_hash_resize(&h, 300, cstl_hash_div);      /* left pending: clear must still reach everything */
+    VRT_OP1("hash.clear", "%ld elements in chains of ~1000, rehash pending", n);
+    VRT_NOMEM(cstl_hash_clear(&h, big_cb));
+    CK(big_seen == n && cstl_hash_size(&h) == 0, "bigclear.hash.count", "clear of %ld elements handed over %ld", n, big_seen);
+    VRT_COUNT("cycles.bigclear");
+    vrt_free(a);
 }
 
 static const struct { const char *name; void (*f)(void); } fam[] = {
